@@ -95,8 +95,11 @@ def run(ctx):
         msg = b"aux-msg"
         variants = [("filled", aux), ("truncated", aux[:-1]), ("truncated", aux[:len(aux) // 2]), ("truncated", aux[:4]), ("padded", aux + b"\0"),
                     ("padded", aux + rng.bytes_(40)), ("none", None), ("zero", bytes(len(aux))), ("zero", bytes(5)), ("garbage", b"\0" + rng.bytes_(700))]
-        step = 1 if ctx.tier == "thorough" else max(1, (len(aux) * 8) // 90)
-        for bit in range(0, len(aux) * 8, step):
+        if ctx.tier == "thorough":
+            bits = [byte * 8 + rng.randrange(8) for byte in range(len(aux))]          # every byte position, one bit each
+        else:
+            bits = list(range(0, len(aux) * 8, max(1, (len(aux) * 8) // 90)))
+        for bit in bits:
             a2 = bytearray(aux)
             a2[bit // 8] ^= 1 << (bit % 8)
             variants.append(("bitflip", bytes(a2)))
